@@ -22,7 +22,8 @@ def _plain(x):
 def loc_parts(loc):
     if loc is None:
         return None
-    return [(int(p.start), int(p.end), p.strand) for p in loc.parts]
+    # (parts that lie on another record -- `ref` -- denote nothing on this one)
+    return [(int(p.start), int(p.end), p.strand) for p in loc.parts if not (getattr(p, "ref", None) or getattr(p, "ref_db", None))]
 
 
 def feature_snapshot(f, n, with_denoted=True):
